@@ -4,6 +4,7 @@
   seedtest.py intake <name> <worktree> <property>   verify the agent's claims in its worktree, store under /verif/seeded/<name>/
   seedtest.py run <name> [props...] [--no-proof]    apply the patch to /repo, run the quick checks, undo, record which checks fire
   seedtest.py all [--no-proof]                      run every stored seeded defect against the check of its own property
+  --shard=i/n                                       (with all) every n-th stored change from the i-th: shards run side by side
   --rig                                             do it in a private copy of /verif against a scratch worktree (not /repo)
 """
 import json, os, re, shutil, subprocess, sys
@@ -123,7 +124,8 @@ def main():
     a = sys.argv[1:]
     no_proof = "--no-proof" in a
     use_rig = "--rig" in a
-    a = [x for x in a if x not in ("--no-proof", "--rig")]
+    shard = next((x for x in a if x.startswith("--shard=")), None)      # --shard=i/n: every n-th stored change, from the i-th
+    a = [x for x in a if x not in ("--no-proof", "--rig") and not x.startswith("--shard=")]
     tag = "s%d" % os.getpid()       # private to this invocation: concurrent runs do not clobber each other's rig
     rig = make_rig(tag) if use_rig and a[0] in ("run", "all") else None
     if a[0] == "intake":
@@ -136,7 +138,11 @@ def main():
                 drop_rig(tag)
     elif a[0] == "all":
         try:
-            for name in sorted(os.listdir(os.path.join(ROOT, "seeded"))):
+            names = sorted(os.listdir(os.path.join(ROOT, SEEDDIR)))
+            if shard:
+                i, n = shard.split("=")[1].split("/")
+                names = names[int(i)::int(n)]
+            for name in names:
                 run(name, [], no_proof, rig)
         finally:
             if rig:
